@@ -1096,7 +1096,12 @@ func (e *SpecEnv) callFunc(sfn *ssa.Function, fn *types.Func, args []Val) (Val, 
 		if v, ok := vc.eng.specMemo[vc][memo]; ok {
 			return v, nil
 		}
-		res := vc.freshResult(st, rt, "spec:"+key)
+		var res Val
+		if c.Functional {
+			res = vc.ufApply(st, key, args, rt, "spec:"+key)
+		} else {
+			res = vc.freshResult(st, rt, "spec:"+key)
+		}
 		sub := &SpecEnv{vc: vc, vars: map[string]Val{}, st: st, old: st.heap, contract: c, reach: e.reach, pkg: vc.eng.specPkg(sfn)}
 		for i, p := range sfn.Params {
 			if i < len(args) {
